@@ -267,7 +267,8 @@ def search(ctx, cls, cfg, depth, name, deadline=None, max_states=None, stride=97
         k0 = s.key()
     finally:
         s.close()
-    res = explore.bfs([((), k0)], fn, depth, stride=stride, deadline=deadline, max_states=max_states)
+    res = explore.bfs([((), k0)], fn, depth, stride=stride, deadline=deadline, max_states=max_states,
+                      stop_if=core.unknown_violation_pred(ctx.prop))
     viols = []
     for path, v in res.violations:
         case = dict(search=name, cfg=cfg, history=[list(e) for e in path])
